@@ -8,8 +8,12 @@ of the cursor with the exclusion or with the exclusion minus its `$.request.body
 Strings are `List Char` (Go strings are byte strings; the code only tests equality and prefixes by the
 two ASCII roots, which agree on bytes and on code points for valid UTF-8).
 
-JSON values mirror what `fastjson` hands to the walk: numbers keep their lexeme, objects are
-*lists* of fields in document order (fastjson keeps duplicate keys).
+JSON values mirror what `fastjson` hands to the walk: numbers keep their lexeme, STRING VALUES keep
+their lexeme too (the text between the quotes, escapes untouched — fastjson parses a string lazily as
+a raw string and marshals a raw string byte for byte; it is decoded, `unescape`, only when the walk
+asks for its bytes to hash them), objects are *lists* of fields in document order (fastjson keeps
+duplicate keys); field NAMES are decoded (the walk builds cursors from decoded names and the output
+object re-encodes them).
 
 The hash is a parameter `H : Str → Str` (the hasher of the `Obfuscator`); nothing is assumed about it.
 
@@ -25,7 +29,7 @@ inductive Json where
   | null
   | bool (b : Bool)
   | num (lex : Str)
-  | str (s : Str)
+  | str (lexeme : Str)
   | arr (xs : List Json)
   | obj (kvs : List (Str × Json))
 
@@ -120,13 +124,69 @@ def numPre (lex : Str) : Str :=
       if 0 ≤ e then m * 2 ^ e.toNat * 100 else divRoundEven (m * 100) (2 ^ (-e).toNat)
   (if neg then ['-'] else []) ++ Nat.toDigits 10 (cents / 100) ++ '.' :: pad2 (cents % 100)
 
-/-- The bytes that are hashed for a primitive value. -/
+/-! ### `unescapeStringBestEffort` (fastjson): the decoded value of a string lexeme. -/
+
+def hexDigitVal (c : Char) : Option Nat :=
+  if '0' ≤ c ∧ c ≤ '9' then some (c.toNat - 48)
+  else if 'a' ≤ c ∧ c ≤ 'f' then some (c.toNat - 87)
+  else if 'A' ≤ c ∧ c ≤ 'F' then some (c.toNat - 55)
+  else none
+
+def hex4Val : Str → Option Nat
+  | [a, b, c, d] =>
+    match hexDigitVal a, hexDigitVal b, hexDigitVal c, hexDigitVal d with
+    | some w, some x, some y, some z => some (((w * 16 + x) * 16 + y) * 16 + z)
+    | _, _, _, _ => none
+  | _ => none
+
+def isSurrogate (n : Nat) : Bool := 0xD800 ≤ n && n < 0xE000
+
+/-- `utf16.DecodeRune`: a high surrogate followed by a low one, else U+FFFD. -/
+def decodeSurrogates (hi lo : Nat) : Char :=
+  if 0xD800 ≤ hi && hi < 0xDC00 && 0xDC00 ≤ lo && lo < 0xE000 then
+    Char.ofNat (0x10000 + (hi - 0xD800) * 0x400 + (lo - 0xDC00))
+  else Char.ofNat 0xFFFD
+
+/-- `acc` is reversed.  `\" \\ \/ \b \f \n \r \t`, `\uXXXX` (surrogate pairs combined; a surrogate not
+    followed by another `\u` escape, a short or non-hex `\u`, and unknown escapes are kept as written). -/
+def unescapeAux : Nat → Str → Str → Str
+  | 0, _, acc => acc.reverse
+  | _, [], acc => acc.reverse
+  | fuel + 1, '\\' :: e :: r, acc =>
+    if e == '"' then unescapeAux fuel r ('"' :: acc)
+    else if e == '\\' then unescapeAux fuel r ('\\' :: acc)
+    else if e == '/' then unescapeAux fuel r ('/' :: acc)
+    else if e == 'b' then unescapeAux fuel r (Char.ofNat 8 :: acc)
+    else if e == 'f' then unescapeAux fuel r (Char.ofNat 12 :: acc)
+    else if e == 'n' then unescapeAux fuel r ('\n' :: acc)
+    else if e == 'r' then unescapeAux fuel r ('\r' :: acc)
+    else if e == 't' then unescapeAux fuel r ('\t' :: acc)
+    else if e == 'u' then
+      match hex4Val (r.take 4) with
+      | none => unescapeAux fuel r ('u' :: '\\' :: acc)
+      | some x =>
+        let r1 := r.drop 4
+        if !(isSurrogate x) then unescapeAux fuel r1 (Char.ofNat x :: acc)
+        else
+          match r1 with
+          | '\\' :: 'u' :: r2 =>
+            match hex4Val (r2.take 4) with
+            | some y => unescapeAux fuel (r2.drop 4) (decodeSurrogates x y :: acc)
+            | none => unescapeAux fuel r1 ((r.take 4).reverse ++ 'u' :: '\\' :: acc)
+          | _ => unescapeAux fuel r1 ((r.take 4).reverse ++ 'u' :: '\\' :: acc)
+    else unescapeAux fuel r (e :: '\\' :: acc)
+  | fuel + 1, ['\\'], acc => unescapeAux fuel [] acc
+  | fuel + 1, c :: r, acc => unescapeAux fuel r (c :: acc)
+
+def unescape (lexeme : Str) : Str := unescapeAux (lexeme.length + 1) lexeme []
+
+/-- The bytes that are hashed for a primitive value (`StringBytes()` = the DECODED string). -/
 def leafPre : Json → Str
   | .null => "null".toList
   | .bool true => "true".toList
   | .bool false => "false".toList
   | .num lex => numPre lex
-  | .str s => s
+  | .str s => unescape s
   | _ => []
 
 /-- `Object.Get`: the first field with that key. -/
